@@ -14,6 +14,12 @@ HISTORY = {
     "C15-b": "would have been MISSED by the hand-written list of call sequences. Strengthened before the run: a reference predicate written from the property statement and a systematic enumeration of function sequences over 2..3 model parameters (229 quick / 1281 thorough programs).",
     "C11-b": "needs S right-hand sides not divisible by ceil(S/threads): S=3 with 2 threads and S=5 with 3 threads were added to the relpar configurations before the run.",
     "C18-b": "Engine M: `Matrix::len` got an exact summary (rows*cols) before the run so that the solver model replays natively; the native buildcase grid also covers it.",
+    "C11-c": "round 3 (blind, free choice of property): caught on the first run by Engine M's comparison of the two impls' MIR only; Engine R missed it because no configuration had P >= 2*threads with a remainder. Strengthened: relpar configuration p=5 on a 2-thread pool (and p=3..6 in thorough); R now reports it as well.",
+    "C02-c": "round 3 (blind): caught on the first run (truncated paths of the core scenario).",
+    "C04-c": "round 3 (blind): caught on the first run (C02 residual identity on truncated paths; native fwsmap).",
+    "C16-c": "round 3 (blind): caught on the first run (same class as C16-b, after the routing programs had been broadened).",
+    "C06-c": "round 3 (blind): caught on the first run.",
+    "C13-c": "round 3 (blind): caught on the first run by the native validation at extreme weight scales (same class as C13-b).",
     "C04-a": "first evaluation design: Engine M alone reported it but its native replay scenario did not cover LostPatience; the native scenario fitmap now enumerates all 13 termination reasons.",
 }
 rows = []
